@@ -42,7 +42,7 @@ CLASSES = ['CircleSkyRegion', 'EllipseSkyRegion', 'RectangleSkyRegion', 'CircleA
 
 
 def generate(rng, tier, shard, nshards):
-    n = 250 if tier == 'quick' else 4000
+    n = 500 if tier == 'quick' else 6000
     for i in range(n):
         w = gen.wcs_spec(rng, conformal=True)
         cls = rng.choice(CLASSES)
